@@ -415,6 +415,9 @@ class CatLinearOperator(LinearOperator):
         device.
         """
         device, dtype = _to_helper(*args, **kwargs)
+        if device is None:
+            # a dtype-only conversion keeps the output device
+            device = self.output_device
 
         new_kwargs = {**self._kwargs, "output_device": device}
         res = self.__class__(*self._args, **new_kwargs)
